@@ -20,7 +20,7 @@ noncomputable instance instTranscReal : Transc ℝ where
   exp := Real.exp
   tanh := Real.tanh
 
-variable {V : Type} [DecidableEq V]
+variable {V : Type}
 
 theorem powN_eq (a : ℝ) (n : Nat) : powN a n = a ^ n := by
   induction n with
@@ -41,6 +41,8 @@ theorem powN_eq (a : ℝ) (n : Nat) : powN a n = a ^ n := by
 @[simp] theorem eval_exp (ρ : V → ℝ) (a : Expr V) : eval ρ (exp a) = Real.exp (eval ρ a) := rfl
 @[simp] theorem eval_tanh (ρ : V → ℝ) (a : Expr V) : eval ρ (tanh a) = Real.tanh (eval ρ a) := rfl
 @[simp] theorem eval_zero (ρ : V → ℝ) : eval ρ (zero : Expr V) = 0 := by simp [zero]
+
+variable [DecidableEq V]
 
 /-- "every denominator is non-zero at ρ" over the reals -/
 abbrev DefinedR (ρ : V → ℝ) (e : Expr V) : Prop := Defined (fun k : ℝ => k = 0) ρ e
@@ -454,5 +456,309 @@ theorem convective_spec (out field : List (Expr V)) (vs : List (VarT V)) (ρ : V
   apply List.map_congr_left
   intro o _
   simp only [Function.comp, eval_sumE, List.map_zipWith, List.zipWith_map_left, eval_mul]
+
+/-! ## the sum-then-autograd trick: rows are independent -/
+
+theorem eval_map {W : Type} (f : V → W) (ρ : W → ℝ) (e : Expr V) : eval ρ (e.map f) = eval (fun y => ρ (f y)) e := by
+  induction e with
+  | const c => rfl
+  | var y => rfl
+  | add a b iha ihb | sub a b iha ihb | mul a b iha ihb | div a b iha ihb => simp [Expr.map, iha, ihb]
+  | neg a iha | pow a n iha | sin a iha | cos a iha | exp a iha | tanh a iha => simp [Expr.map, iha]
+
+theorem vars_map {W : Type} (f : V → W) (e : Expr V) : vars (e.map f) = (vars e).map f := by
+  induction e with
+  | const c => rfl
+  | var y => rfl
+  | add a b iha ihb | sub a b iha ihb | mul a b iha ihb | div a b iha ihb => simp [Expr.map, vars, iha, ihb]
+  | neg a iha | pow a n iha | sin a iha | cos a iha | exp a iha | tanh a iha => simp [Expr.map, vars, iha]
+
+/-- differentiating a renamed program with respect to a renamed coordinate = renaming the derivative -/
+theorem D_map_inj {W : Type} [DecidableEq W] (f : V → W) (hf : Function.Injective f) (x : V) (e : Expr V) :
+    D (f x) (e.map f) = (D x e).map f := by
+  induction e with
+  | const c => rfl
+  | var y =>
+    by_cases h : y = x
+    · subst h; simp [Expr.map, D]
+    · have : f y ≠ f x := fun hh => h (hf hh)
+      simp [Expr.map, D, h, this]
+  | add a b iha ihb | sub a b iha ihb | mul a b iha ihb | div a b iha ihb => simp [Expr.map, D, iha, ihb]
+  | neg a iha | pow a n iha | sin a iha | cos a iha | exp a iha | tanh a iha => simp [Expr.map, D, iha]
+
+/-- the derivative of the program placed at row `r'` with respect to a coordinate of row `r` -/
+theorem eval_D_atRow (ρB : BV V → ℝ) (r r' : Nat) (x : V) (e : Expr V) :
+    eval ρB (D (r, x) (atRow r' e)) = if r' = r then eval (fun y => ρB (r, y)) (D x e) else 0 := by
+  by_cases h : r' = r
+  · subst h
+    have hinj : Function.Injective (fun y : V => ((r', y) : BV V)) := fun a b hab => (Prod.mk.inj hab).2
+    simp only [atRow, if_true]
+    rw [D_map_inj (fun y : V => ((r', y) : BV V)) hinj, eval_map]
+  · rw [if_neg h]
+    apply const_zero
+    simp only [atRow, vars_map, List.mem_map, not_exists, not_and]
+    intro y _ hy
+    exact h (Prod.mk.inj hy).1
+
+private theorem sum_range_single (n r : Nat) (c : ℝ) (h : r < n) :
+    ((List.range n).map (fun r' => if r' = r then c else 0)).sum = c := by
+  induction n with
+  | zero => omega
+  | succ n ih =>
+    rw [List.range_succ, List.map_append, List.sum_append]
+    by_cases hr : r = n
+    · subst hr
+      have : ((List.range r).map (fun r' => if r' = r then c else 0)) = (List.range r).map (fun _ => (0 : ℝ)) := by
+        apply List.map_congr_left
+        intro a ha
+        have : a ≠ r := by have := List.mem_range.mp ha; omega
+        simp [this]
+      rw [this]; simp
+    · have hlt : r < n := by omega
+      rw [ih hlt]
+      have : n ≠ r := fun hh => hr hh.symm
+      simp [this]
+
+/-- **sum trick.** Differentiating the sum over all `n` rows with respect to a coordinate of row `r` gives the
+    derivative of the row-level program at row `r` — the other rows contribute nothing. -/
+theorem sum_trick (n r : Nat) (hr : r < n) (ρB : BV V → ℝ) (x : V) (e : Expr V) :
+    eval ρB (D (r, x) (total n e)) = eval (fun y => ρB (r, y)) (D x e) := by
+  simp only [total, eval_D_sumE, List.map_map, Function.comp_def, eval_D_atRow]
+  exact sum_range_single n r _ hr
+
+theorem flatten_varAt (r : Nat) (vs : List (VarT V)) :
+    (vs.map (varAt r)).flatten = vs.flatten.map (fun y => ((r, y) : BV V)) := by
+  have h : (varAt r : VarT V → VarT (BV V)) = List.map (fun y => ((r, y) : BV V)) := rfl
+  rw [h, ← List.map_flatten]
+
+/-- the batch-level `grad` the code executes equals the row-level `grad`, entry by entry -/
+theorem gradB_eq (n r : Nat) (hr : r < n) (ρB : BV V → ℝ) (out : List (Expr V)) (vs : List (VarT V)) :
+    (gradB n out vs r).map (eval ρB) = (grad out vs).map (eval (fun y => ρB (r, y))) := by
+  simp only [gradB, grad_eq, flatten_varAt, List.map_map, Function.comp_def,
+    eval_D_sumE, sum_trick n r hr]
+
+/-- the batch-level `jac` equals the row-level `jac` -/
+theorem jacB_eq (n r : Nat) (hr : r < n) (ρB : BV V → ℝ) (out : List (Expr V)) (vs : List (VarT V)) :
+    (jacB n out vs r).map (List.map (eval ρB)) = (jac out vs).map (List.map (eval (fun y => ρB (r, y)))) := by
+  simp only [jacB, jac_eq, flatten_varAt, List.map_map, Function.comp_def, sum_trick n r hr]
+
+/-- the batch-level `div` equals the row-level `div` -/
+theorem divB_eq (n r : Nat) (hr : r < n) (ρB : BV V → ℝ) (out : List (Expr V)) (vs : List (VarT V))
+    (h : vs.flatten.length ≤ out.length) :
+    (divB n out vs r).map (List.map (eval ρB)) = (div out vs).map (List.map (eval (fun y => ρB (r, y)))) := by
+  have h' : (vs.map (varAt r)).flatten.length ≤ (out.map (total n)).length := by
+    rw [flatten_varAt, List.length_map, List.length_map]; exact h
+  rw [divB, div_value _ _ _ h', div_value _ _ _ h]
+  simp only [flatten_varAt, List.zipWith_map_left, List.zipWith_map_right, sum_trick n r hr]
+
+/-- **row independence** (grad): the result for row `r` depends only on row `r` of the inputs -/
+theorem grad_row_independent (n r : Nat) (hr : r < n) (ρB ρB' : BV V → ℝ) (out : List (Expr V)) (vs : List (VarT V))
+    (hrow : ∀ y, ρB (r, y) = ρB' (r, y)) :
+    (gradB n out vs r).map (eval ρB) = (gradB n out vs r).map (eval ρB') := by
+  rw [gradB_eq n r hr, gradB_eq n r hr, funext hrow]
+
+theorem jac_row_independent (n r : Nat) (hr : r < n) (ρB ρB' : BV V → ℝ) (out : List (Expr V)) (vs : List (VarT V))
+    (hrow : ∀ y, ρB (r, y) = ρB' (r, y)) :
+    (jacB n out vs r).map (List.map (eval ρB)) = (jacB n out vs r).map (List.map (eval ρB')) := by
+  rw [jacB_eq n r hr, jacB_eq n r hr, funext hrow]
+
+/-! ## second order: the laplacian's second autograd call sums the gradient column over ALL rows -/
+
+/-- two programs with the same values along the `x`-line have the same `x`-derivative value -/
+theorem eval_D_congr (x : V) (ρ : V → ℝ) (e1 e2 : Expr V) (h1 : DefinedR ρ e1) (h2 : DefinedR ρ e2)
+    (h : ∀ t, eval (Function.update ρ x t) e1 = eval (Function.update ρ x t) e2) :
+    eval ρ (D x e1) = eval ρ (D x e2) := by
+  have d1 := D_correct x ρ e1 h1
+  have d2 := D_correct x ρ e2 h2
+  rw [funext h] at d1
+  exact d1.unique d2
+
+theorem defined_map {W : Type} (f : V → W) (ρ : W → ℝ) (e : Expr V) :
+    DefinedR ρ (e.map f) ↔ DefinedR (fun y => ρ (f y)) e := by
+  induction e with
+  | const c => exact Iff.rfl
+  | var y => exact Iff.rfl
+  | add a b iha ihb | sub a b iha ihb | mul a b iha ihb =>
+    exact ⟨fun h => ⟨iha.mp h.1, ihb.mp h.2⟩, fun h => ⟨iha.mpr h.1, ihb.mpr h.2⟩⟩
+  | div a b iha ihb =>
+    constructor
+    · intro h
+      refine ⟨iha.mp h.1, ihb.mp h.2.1, ?_⟩
+      have := h.2.2
+      rwa [eval_map] at this
+    · intro h
+      refine ⟨iha.mpr h.1, ihb.mpr h.2.1, ?_⟩
+      show ¬ (eval ρ (b.map f) = 0)
+      rw [eval_map]
+      exact h.2.2
+  | neg a iha | pow a n iha | sin a iha | cos a iha | exp a iha | tanh a iha => exact iha
+
+theorem defined_sumE (ρ : V → ℝ) (l : List (Expr V)) (h : ∀ e ∈ l, DefinedR ρ e) : DefinedR ρ (sumE l) := by
+  induction l with
+  | nil => trivial
+  | cons e es ih =>
+    cases es with
+    | nil => exact h e (by simp)
+    | cons e' es' => exact ⟨h e (by simp), ih (fun a ha => h a (by simp [ha]))⟩
+
+theorem defined_total (n : Nat) (ρB : BV V → ℝ) (u : Expr V) (h : ∀ r', r' < n → DefinedR (fun y => ρB (r', y)) u) :
+    DefinedR ρB (total n u) := by
+  apply defined_sumE
+  intro e he
+  rw [List.mem_map] at he
+  obtain ⟨r', hr', rfl⟩ := he
+  exact (defined_map _ ρB u).mpr (h r' (List.mem_range.mp hr'))
+
+/-- second-order sum trick: `D (r,x)` of the row-sum of the gradient column is the pure second derivative at row `r` -/
+theorem sum_trick2 (n r : Nat) (hr : r < n) (ρB : BV V → ℝ) (x : V) (u : Expr V)
+    (hd : ∀ r', r' < n → DefinedR (fun y => ρB (r', y)) u) :
+    eval ρB (D (r, x) (sumE ((List.range n).map fun r' => D (r', x) (total n u))))
+      = eval (fun y => ρB (r, y)) (D x (D x u)) := by
+  rw [eval_D_sumE, List.map_map]
+  have hterm : ∀ r' ∈ List.range n,
+      ((fun a => eval ρB (D (r, x) a)) ∘ fun r' => D (r', x) (total n u)) r'
+        = if r' = r then eval (fun y => ρB (r, y)) (D x (D x u)) else 0 := by
+    intro r' hr'
+    have hr'n : r' < n := List.mem_range.mp hr'
+    have hc : eval ρB (D (r, x) (D (r', x) (total n u))) = eval ρB (D (r, x) (atRow r' (D x u))) := by
+      apply eval_D_congr
+      · exact defined_D _ _ _ (defined_total n ρB u hd)
+      · exact (defined_map _ ρB (D x u)).mpr (defined_D _ _ _ (hd r' hr'n))
+      · intro t
+        rw [sum_trick n r' hr'n, atRow, eval_map]
+    simp only [Function.comp, hc, eval_D_atRow]
+  rw [List.map_congr_left hterm]
+  exact sum_range_single n r _ hr
+
+/-- the batch-level `laplacian` the code executes equals the row-level laplacian (scalar output) -/
+theorem laplacianB_eq (n r : Nat) (hr : r < n) (ρB : BV V → ℝ) (u : Expr V) (vs : List (VarT V))
+    (hd : ∀ r', r' < n → DefinedR (fun y => ρB (r', y)) u) :
+    (laplacianB n [u] vs r).map (eval ρB) = (laplacian [u] vs).map (eval (fun y => ρB (r, y))) := by
+  rw [laplacian_spec]
+  simp only [laplacianB, List.map_cons, List.map_nil, sumE, eval_sumE]
+  congr 1
+  rw [← List.map_flatten, List.map_map]
+  congr 1
+  apply List.map_congr_left
+  intro x _
+  exact sum_trick2 n r hr ρB x u hd
+
+/-! ## sym_grad, matrix_div -/
+
+private theorem entry_map (rows : List (Expr V)) (f : Expr V → List (Expr V)) (i j : Nat) :
+    entry (rows.map f) i j = match rows[i]? with
+      | some o => (match (f o)[j]? with | some e => .ok e | none => .error "narrow")
+      | none => .error "narrow" := by
+  simp only [entry, List.getElem?_map]
+  cases rows[i]? <;> rfl
+
+/-- (partial: the loop body of `symGrad`, not the assembled matrix — full statement `C03_full_symGrad`)
+    **sym_grad** entry `(i, j)` is `½ (∂u_i/∂y_j + ∂u_j/∂y_i)` (square case) -/
+theorem symGrad_entry_partial (out : List (Expr V)) (vs : List (VarT V)) (i j : Nat) (o_i o_j : Expr V) (y_i y_j : V)
+    (hi : out[i]? = some o_i) (hj : out[j]? = some o_j)
+    (hyi : vs.flatten[i]? = some y_i) (hyj : vs.flatten[j]? = some y_j) :
+    (do let a ← entry (jac out vs) i j; let b ← entry (jac out vs) j i; pure (mul (const (1/2)) (add a b)) : Except String (Expr V))
+      = .ok (mul (const (1/2)) (add (D y_j o_i) (D y_i o_j))) := by
+  simp only [jac_eq, entry_map, hi, hj, List.getElem?_map, hyi, hyj, Option.map_some]
+  rfl
+
+/-- **matrix_div**: one divergence per matrix row -/
+theorem matrixDiv_spec (M : List (List (Expr V))) (vs : List (VarT V)) (h : ∀ row ∈ M, vs.flatten.length ≤ row.length) :
+    matrixDiv M vs = .ok (M.map fun row => sumE (List.zipWith (fun y o => D y o) vs.flatten row)) := by
+  have hm : M.mapM (fun row => div row vs) = .ok (M.map fun row => [sumE (List.zipWith (fun y o => D y o) vs.flatten row)]) := by
+    induction M with
+    | nil => rfl
+    | cons row M ih =>
+      have h1 := div_spec row vs (h row (by simp))
+      have h2 := ih (fun r hr => h r (by simp [hr]))
+      simp only [List.mapM_cons, h1, h2, bind, Except.bind, pure, Except.pure, List.map_cons]
+  simp only [matrixDiv, hm, bind, Except.bind, pure, Except.pure]
+  congr 1
+  have hflat : ∀ (L : List (List (Expr V))) (g : List (Expr V) → Expr V),
+      (L.map fun row => [g row]).flatten = L.map g := by
+    intro L g
+    induction L with
+    | nil => rfl
+    | cons a L ih => simp [ih]
+  exact hflat M _
+
+/-- FULL STATEMENT, not proved: the assembled `sym_grad` matrix in the square case -/
+def C03_full_symGrad : Prop :=
+  ∀ (V : Type) [DecidableEq V] (out : List (Expr V)) (vs : List (VarT V)), out.length = vs.flatten.length →
+    symGrad out vs = .ok ((out.zip vs.flatten).map fun p =>
+      (out.zip vs.flatten).map fun q => mul (const (1/2)) (add (D q.2 p.1) (D p.2 q.1)))
+
+/-- FULL STATEMENT, not proved: the batch-level `partial` of any order equals the row-level `partial`
+    (proved: first-order operators `gradB_eq`, `jacB_eq`, `divB_eq`, and second order for `laplacianB_eq`) -/
+def C03_full_partialB : Prop :=
+  ∀ (V : Type) [DecidableEq V] (n r : Nat) (ρB : BV V → ℝ) (out : List (Expr V)) (vs : List (VarT V)),
+    r < n → (∀ ρ : V → ℝ, ∀ o ∈ out, DefinedR ρ o) →
+    (partialB n out vs r).map (eval ρB) = (partialD out vs).map (eval (fun y => ρB (r, y)))
+
+/-- **row independence** (laplacian) -/
+theorem laplacian_row_independent (n r : Nat) (hr : r < n) (ρB ρB' : BV V → ℝ) (u : Expr V) (vs : List (VarT V))
+    (hd : ∀ r', r' < n → DefinedR (fun y => ρB (r', y)) u) (hd' : ∀ r', r' < n → DefinedR (fun y => ρB' (r', y)) u)
+    (hrow : ∀ y, ρB (r, y) = ρB' (r, y)) :
+    (laplacianB n [u] vs r).map (eval ρB) = (laplacianB n [u] vs r).map (eval ρB') := by
+  rw [laplacianB_eq n r hr ρB u vs hd, laplacianB_eq n r hr ρB' u vs hd', funext hrow]
+
+/-! ## the pinned snapshot violated the property (negative results; repaired by the `fix:` commits) -/
+
+/-- coordinates used by the witnesses -/
+abbrev X0 : String × Nat := ("x", 0)
+abbrev T0 : String × Nat := ("t", 0)
+
+/-- PINNED CODE: `grad(x₀², t)` raised although the analytic gradient with respect to `t` is 0 (which is what the
+    repaired operator returns at every row) -/
+theorem gradOld_raises_on_independent :
+    gradOld [pow (var X0) 2] [[T0]] = .error "unused" ∧
+    ∀ ρ : String × Nat → ℝ, (grad [pow (var X0) 2] [[T0]]).map (eval ρ) = [0] := by
+  refine ⟨by decide, fun ρ => ?_⟩
+  simp [grad_eq, sumE, D, X0, T0]
+
+/-- PINNED CODE: `laplacian(x₀·t, t)` raised (the `t`-gradient of a bilinear function no longer contains `t`);
+    the analytic value, returned by the repaired operator, is 0 -/
+theorem laplacianOld_raises_on_bilinear :
+    laplacianOldBilinear (var X0) T0 = .error "unused" ∧
+    ∀ ρ : String × Nat → ℝ, (laplacian [mul (var X0) (var T0)] [[T0]]).map (eval ρ) = [0] := by
+  refine ⟨by decide, fun ρ => ?_⟩
+  rw [laplacian_spec]
+  simp [D, X0, T0]
+
+/-- PINNED CODE: `grad` of two variables on a batch of shape (2,3) concatenated along axis 1 (or raised when the
+    variable dimensions differ); the repaired operator returns batch shape + [sum of the dimensions] -/
+theorem gradShapeOld_wrong :
+    gradShapeOld [2, 3] [1, 1] = .ok [2, 6, 1] ∧ gradShapeOld [2, 3] [2, 1] = .error "shape" ∧
+    gradShape [2, 3] [1, 1] = [2, 3, 2] ∧ gradShape [2, 3] [2, 1] = [2, 3, 3] ∧
+    ∀ b ds, gradShapeOld [b] ds = .ok (gradShape [b] ds) := by
+  refine ⟨by decide, by decide, by decide, by decide, fun b ds => rfl⟩
+
+/-! ## non-vacuity: concrete instances of the hypotheses used above -/
+
+section examples
+/-- u = x₀² · t + sin x₁ -/
+def exU : Expr (String × Nat) := add (mul (pow (var ("x", 0)) 2) (var ("t", 0))) (sin (var ("x", 1)))
+def exVars : List (VarT (String × Nat)) := [[("t", 0)], [("x", 0), ("x", 1)]]
+
+example : grad [exU] exVars = [D ("t", 0) exU, D ("x", 0) exU, D ("x", 1) exU] := rfl
+example (ρ : String × Nat → ℝ) : DefinedR ρ exU := ⟨⟨trivial, trivial⟩, trivial⟩
+/-- a program with a division whose denominator 1 + x₀² never vanishes -/
+example (ρ : String × Nat → ℝ) :
+    DefinedR ρ (Expr.div (var ("x", 1)) (add (const 1) (mul (var ("x", 0)) (var ("x", 0))))) := by
+  refine ⟨trivial, ⟨trivial, trivial, trivial⟩, ?_⟩
+  simp only [eval_add, eval_const, eval_mul, eval_var, Rat.cast_one]
+  nlinarith [mul_self_nonneg (ρ ("x", 0))]
+example : affineIn ("t", 0) exU = true := by decide
+example : ("t", 0) ∉ vars (sin (var (("x", 1) : String × Nat))) := by decide
+example : exVars.flatten.length ≤ [exU, exU, exU].length := by decide
+example : div [exU, exU] exVars = .error "narrow" := by decide
+example : exVars.flatten = [("t", 0), ("x", 0), ("x", 1)] := rfl
+example : partialD [exU] ([("x", 0), ("t", 0)].map fun y => [y]) = [D ("t", 0) (D ("x", 0) exU)] := rfl
+example : (2 : Nat) < 3 := by decide
+/-- the semantic affine hypothesis: 3 + 2·t along the t-line -/
+example (ρ : String × Nat → ℝ) (t : ℝ) :
+    eval (Function.update ρ ("t", 0) t) (add (const 3) (mul (const 2) (var ("t", 0)))) = 3 + 2 * t := by
+  simp
+end examples
 
 end TPV.DiffOps
